@@ -66,6 +66,7 @@ func (x *Exec) loadRepo(repo string) error {
 	for k, c := range x.cs.Funcs {
 		if i := strings.Index(c.Key, "::"); i >= 0 {
 			delete(x.cs.Funcs, k)
+			c.SpecPkg = c.PkgPath
 			c.PkgPath, c.Key = c.Key[:i], c.Key[i+2:]
 			x.cs.Funcs[c.PkgPath+"::"+c.Key] = c
 		}
